@@ -264,6 +264,14 @@ func (cr *checkRunner) checkRcpt(ctx context.Context, checks []module.Check, rcp
 		cr.checkedRcptsLock.Unlock()
 
 		res := s.CheckRcpt(ctx, rcptTo)
+		if res.Reject {
+			// The command is refused. Do not remember the recipient as
+			// checked, otherwise the same command repeated by the client
+			// is not checked and gets accepted.
+			cr.checkedRcptsLock.Lock()
+			delete(cr.checkedRcptsPerCheck[s], rcptTo)
+			cr.checkedRcptsLock.Unlock()
+		}
 		return res
 	})
 
